@@ -93,8 +93,11 @@ func runC17(c *core.Ctx, crashes bool) {
 	} else {
 		w.Stats.Inc("start-high-height")
 	}
+	w.Stats.Inc("probe-set-size-" + c17SizeBucket(len(chain.M.InForce)))
 	if start == 0 {
 		w.Stats.Inc("start-genesis")
+	} else if start <= 3*epoch {
+		w.Stats.Inc("start-first-epochs")
 	}
 
 	// ---- the client (set-up by keeper call, then a block)
@@ -136,9 +139,9 @@ func runC17(c *core.Ctx, crashes bool) {
 			kinds := chain.Applicable(bsc.FieldKinds)
 			// a pending rotation whose new set differs: probe membership more often
 			k := kinds[ch.Int(len(kinds))]
-			if chain.M.HasPending && ch.Bool(1, 3) {
+			if chain.M.HasPending && ch.Bool(1, 5) {
 				k = bsc.KSignerNotInForce
-			} else if chain.Prev != nil && chain.Prev.HasPending && !chain.M.HasPending && ch.Bool(1, 2) {
+			} else if chain.Prev != nil && chain.Prev.HasPending && !chain.M.HasPending && ch.Bool(1, 3) {
 				k = bsc.KSignerNotInForce // right after a rotation: members of the old set
 			}
 			sub, err := chain.Corrupt(k)
@@ -250,6 +253,7 @@ func (r *c17Run) submit(sub *bsc.Submission, crash world.CrashPoint) {
 	}
 	c.Op(sub.Kind + ":" + outcome)
 	w.Stats.Inc("probe-" + res.Verdict.String() + "-" + outcome)
+	r.boundaryProbes(sub, res, number, ok)
 
 	// ---- (a) verdict
 	switch {
@@ -305,12 +309,92 @@ func (r *c17Run) submit(sub *bsc.Submission, crash world.CrashPoint) {
 			w.Stats.Inc("probe-rotation-changed-set")
 		}
 		w.Log.Add("  rotation at #%d: set in force now %d members", number, len(m.InForce))
+		w.Stats.Inc("probe-set-size-" + c17SizeBucket(len(m.InForce)))
 	}
 
 	// ---- (b) state after acceptance
 	if what, detail := r.compareState(); what != "" {
 		c.Violate("C17/state-after-accept/"+what, "after accepting header #%d (kind %s): %s", number, sub.Kind, detail)
 	}
+}
+
+// boundaryProbes counts the rare situations that pin down the exact rotation
+// height and the exact width of the recency window.
+func (r *c17Run) boundaryProbes(sub *bsc.Submission, res model.ParliaResult, number uint64, ok bool) {
+	m, w := r.chain.M, r.w // state before the header is applied
+	if !res.SignerOK || number != m.Number()+1 {
+		return
+	}
+	acc := "rejected"
+	if ok {
+		acc = "accepted"
+	}
+	inPending := false
+	for _, a := range m.Pending {
+		if a == res.Signer {
+			inPending = true
+		}
+	}
+	inForce := m.IsInForce(res.Signer)
+	if m.HasPending && number == m.ApplyAt {
+		// the last block checked against the old set
+		if inForce && !inPending && res.Verdict == model.ParliaValid {
+			w.Stats.Inc("probe-old-only-member-seals-apply-height-" + acc)
+		}
+		if !inForce && inPending && res.Reason == "non-validator" {
+			w.Stats.Inc("probe-new-only-member-seals-apply-height-" + acc)
+		}
+	}
+	if p := r.chain.Prev; p != nil && p.HasPending && !m.HasPending && number == p.ApplyAt+1 {
+		// the first block checked against the new set
+		wasInForce := p.IsInForce(res.Signer)
+		if inForce && !wasInForce && res.Verdict == model.ParliaValid {
+			w.Stats.Inc("probe-new-only-member-seals-first-block-of-new-set-" + acc)
+		}
+		if !inForce && wasInForce && res.Reason == "non-validator" {
+			w.Stats.Inc("probe-old-only-member-seals-first-block-of-new-set-" + acc)
+		}
+	}
+	if inForce {
+		half := uint64(len(m.InForce) / 2)
+		var last uint64
+		found := false
+		for h, s := range m.Signers {
+			if s == res.Signer && h < number && (!found || h > last) {
+				last, found = h, true
+			}
+		}
+		if found && half > 0 {
+			switch number - last {
+			case half:
+				if res.Reason == "recent-signer" {
+					w.Stats.Inc("probe-sealer-of-oldest-block-in-window-" + acc)
+				}
+			case half + 1:
+				if res.Verdict == model.ParliaValid {
+					w.Stats.Inc("probe-sealer-of-block-just-outside-window-" + acc)
+				}
+			case 1:
+				if res.Reason == "recent-signer" {
+					w.Stats.Inc("probe-sealer-of-previous-block-" + acc)
+				}
+			}
+		}
+	}
+}
+
+func c17SizeBucket(n int) string {
+	switch {
+	case n <= 2:
+		return fmt.Sprint(n)
+	case n <= 7:
+		return "3-7"
+	case n <= 14:
+		return "8-14"
+	case n <= 20:
+		return "15-20"
+	}
+	return "21"
 }
 
 func (r *c17Run) recentSummary(signer common.Address, number uint64) string {
